@@ -222,6 +222,8 @@ def Cur.getValueAtPoints (c : Cur) (name : String) (spherical : Bool) (corners :
         match e[1]? with
         | some pts => do
           (← jarr pts).toList.foldlM (fun (acc : List R × List (P2 R)) pj => do
+            -- `WBAssertThrow(… /0 and /1 exist …)`: a point needs two entries (fixed upstream: the missing one was a null dereference)
+            if (← jarr pj).size < 2 then .error .other
             let p : P2 R ← jpoint2 pj
             let c0 := p.x * dtr spherical
             let c1 := p.y * dtr spherical
@@ -422,6 +424,11 @@ def Cur.getPlainRange (c : Cur) : Except Err (DepthRange R) := do
   let mx : R ← c.getNum "max depth"
   return ⟨Surface.constantOf mn, Surface.constantOf mx⟩
 
+/-- `depths[i] < depths[i+1]` for every consecutive pair -/
+def ascending : List R → Bool
+  | a :: b :: rest => decide (a < b) && ascending (b :: rest)
+  | _ => true
+
 def parsePlume (ctx : Ctx R) (c : Cur) (tags : List String) : PM R (PlumeFeature R × List String) := do
   let sph := ctx.coord.spherical
   let name ← pmLift (c.getStr "name")
@@ -434,6 +441,12 @@ def parsePlume (ctx : Ctx R) (c : Cur) (tags : List String) : PM R (PlumeFeature
   let sma ← pmLift (c.getNumVec "semi-major axis")
   let ecc ← pmLift (c.getNumVec "eccentricity")
   let rot ← pmLift (c.getNumVec "rotation angles")
+  -- always-on checks (plume.cc, `WBAssertThrow`): list lengths, then strictly ascending depths
+  if depths.length != coords.length then pmErr .length
+  if sma.length != coords.length then pmErr .length
+  if ecc.length != coords.length then pmErr .length
+  if rot.length != coords.length then pmErr .length
+  if !(ascending depths) then pmErr .other
   let rot := rot.map (fun (a : R) => Scalar.pi / 2.0 - a * Scalar.pi / 180.0)
   let sma := if sph then sma.map (fun (a : R) => a * (Scalar.pi / 180.0)) else sma
   let temps ← (← pmLift (c.pluginList "temperature models")).mapM (fun (m, cc) => pmLift (do
@@ -442,8 +455,13 @@ def parsePlume (ctx : Ctx R) (c : Cur) (tags : List String) : PM R (PlumeFeature
     | "uniform" => do
       let rng ← cc.getPlainRange
       return TempModel.uniform rng op (← cc.getNum "temperature") false
-    | "gaussian" =>
-      return TempModel.gaussian op (← cc.getNumVec "depths") (← cc.getNumVec "centerline temperatures") (← cc.getNumVec "gaussian sigmas")
+    | "gaussian" => do
+      let ds ← cc.getNumVec "depths"
+      let ct ← cc.getNumVec "centerline temperatures"
+      let sg ← cc.getNumVec "gaussian sigmas"
+      if ds.length == 0 then .error .other
+      if ct.length != ds.length || sg.length != ds.length then .error .length
+      return TempModel.gaussian op ds ct sg
     | _ => .error .unsupported))
   let comps ← (← pmLift (c.pluginList "composition models")).mapM (fun (m, cc) => pmLift (do
     match m with
@@ -593,6 +611,8 @@ def parseLine (ctx : Ctx R) (isFault : Bool) (c : Cur) (tags : List String) (cul
   let tag ← c.getStr "tag"
   let (tags, ti) := addTag tags (if tag == "" then (if isFault then "fault" else "subducting plate") else tag)
   let coords ← getCoordinates c sph
+  -- `WBAssertThrow(coordinates.size() >= 2, …)` (slab and fault)
+  if coords.length < 2 then .error .other
   let bz ← Bezier.build coords
   let minD : R ← c.getNum "min depth"
   let maxD : R ← c.getNum "max depth"
@@ -645,7 +665,9 @@ def parseWorld (decl : Json) (version : String) (doc : Json) (cull : Bool := tru
           if dm == "starting point" then .startingPoint
           else if dm == "begin segment" then .beginSegment
           else if dm == "begin at end segment" then .beginAtEndSegment
-          else .continuous      -- as written: `WBAssertThrow(true, …)` never throws; the enum stays uninitialised
+          else .continuous
+        -- `WBAssertThrow(false, "… is not a valid depth method …")` (was `true`: never thrown, enum left uninitialised; fixed upstream)
+        if method == .continuous then pmErr .option
         let r : R ← pmLift (cc.getNum "radius")
         pure ⟨true, method, r⟩
       else pure ⟨false, .none, Scalar.inf⟩)
